@@ -23,6 +23,36 @@ def app(prop, theorems, explanation, assumptions, facts=None):
 
 
 PROPS = {
+    "C02": {
+        "module": "Shutter.Properties.C02",
+        "theorems": ["C02_time", "C02_event", "C02_sorted", "C02_distinct", "C02_history", "C02_never_again_time",
+                     "C02_never_again_event", "C02_mark", "C02_sql_pinned"],
+        "driver": {"pkg": "./cmd/stcheck"},
+        "facts": ["sql"],
+        "trusted_base": [KERNEL, CORR,
+                         "pgfake + kdb: the PostgreSQL wire fake and my Go reading of the shutter service and core keyper queries; the text "
+                         "of the three queries that carry the release condition is pinned from the sqlc constants on every run",
+                         "hook shutterservice.VerifNewKeyper / VerifMaybeTriggerDecryption / VerifLatestTriggeredTime / VerifNewHandlers (build tag verif)",
+                         "modelled, not verified: the goroutine that takes triggers from the channel and calls "
+                         "KeyShareHandler.ConstructDecryptionKeyShares (exercised by the C03 rig); fired_triggers rows are taken as given "
+                         "here, their creation only for a matching log no later than the expiry block is C16",
+                         "Keccak injectivity (identity = hash of prefix and sender) is a hypothesis of C02_distinct"],
+        "explanation": "Theorems (Lean, every table content, every block, every history): each identity in each time-based trigger belongs "
+                       "to a stored, undecrypted registration whose release time is strictly before the block's timestamp, for a keyper "
+                       "set whose newest eon has a successful key generation, which the keyper belongs to and whose activation block is "
+                       "at most the block's number (C02_time); each identity in an event-based trigger has a fired row with an undecrypted "
+                       "registration of a decryptable set (C02_event); identities are sorted (C02_sorted) and, given the primary keys, "
+                       "distinct (C02_distinct); C02_history lifts both to every block of every history of blocks (timestamps not "
+                       "monotone), registrations, eon starts, results, releases and restarts; once a registration is marked decrypted no "
+                       "later trigger is sourced from it (C02_never_again_time / _event). The real maybeTriggerDecryption runs over the "
+                       "PostgreSQL fake through generated histories (release times equal to, just below and just above block times; "
+                       "activation at, before and after the block; failed, missing and restarted key generations; non-members; restarts) "
+                       "and is compared with the model; the release condition is also evaluated directly on every emitted trigger.",
+        "assumptions": ["safety only: a registration skipped because its keyper set was not decryptable when its time passed is never "
+                        "retried unless the keyper restarts (the in-memory mark has moved on); this is outside the property's statement",
+                        "reorg rollbacks of registrations (which re-create rows with decrypted = false) are not among the operations "
+                        "quantified over; they belong to C15"],
+    },
     "C19": {
         "module": "Shutter.Properties.C19",
         "theorems": ["C19_prefix", "C19_prefix_capped", "C19_sorted", "C19_slot_first", "C19_row_order", "C19_agree",
